@@ -264,16 +264,22 @@ def lenient_zero(line):
 
 
 def ref_decode(raw):
-    """Independent strict decoder: the payload when `raw` starts with a well-formed chunked encoding (1*HEXDIG [;ext] CRLF data
-    CRLF ... 0 [;ext] CRLF), else None.  A damaged encoding may by coincidence be a well-formed encoding of another payload."""
+    """Independent lenient decoder: the payload when `raw` starts with an encoding that is well-formed under the most lenient reading of a
+    size line (everything up to the next CRLF; the size is its leading run of hex digits - what follows, an extension or junk, is not
+    looked at), each chunk's data followed by CRLF, ended by a size of zero; else None.  A damaged encoding may by coincidence be such an
+    encoding of ANOTHER payload (a substituted byte turns the line end into part of an 'extension' that swallows the data, and the next
+    chunk header is then taken for data): presenting that payload is acceptance, not a shifted body."""
     import re as _re
     pos, out = 0, b''
     while True:
-        m = _re.compile(rb'([0-9A-Fa-f]+)(;[^\r\n]*)?\r\n').match(raw, pos)
+        end = raw.find(b'\r\n', pos)
+        if end < 0:
+            return None
+        m = _re.match(rb'[0-9A-Fa-f]+', raw[pos:end])
         if not m:
             return None
-        n = int(m.group(1), 16)
-        pos = m.end()
+        n = int(m.group(0), 16)
+        pos = end + 2
         if n == 0:
             return out
         if raw[pos + n:pos + n + 2] != b'\r\n' or len(raw) < pos + n + 2:
